@@ -101,6 +101,8 @@ func (s *S) Obj(src string) (res object.Object, err error) {
 	if len(p.Errors()) > 0 {
 		return nil, fmt.Errorf("parse errors: %s", strings.Join(p.Errors(), "; "))
 	}
+	cancel := s.St.SetContext(context.Background(), s.Opts.MaxDuration) // EvalOne cancels the context it installs
+	defer cancel()
 	s.St.DefineMacros(prog)
 	var node any = prog
 	if s.St.NumMacros() > 0 {
